@@ -114,7 +114,12 @@ def run(ctx: Ctx):
         n = v["n"]
         if n > 244 * 32767:
             continue  # beyond the 15-bit block number: outside the property
-        msg = SecsIMessage(mk_header(h0, SecsIHeader), bytes(n))
+        try:
+            msg = SecsIMessage(mk_header(h0, SecsIHeader), bytes(n))
+        except Exception as exc:  # noqa: BLE001
+            ctx.violation({"check": "split-large", "n": n, "want_blocks": v["nblocks"], "error": type(exc).__name__,
+                           "what": f"body of {n} bytes ({v['nblocks']} blocks, within the 32767-block limit) cannot be split: {exc!r}"})
+            continue
         nb = len(msg.blocks)
         last = len(msg.blocks[-1].data)
         flags = [b.header.last_block for b in msg.blocks]
